@@ -46,7 +46,7 @@ class PyprojectWriter(DependencyWriter):
             return None
 
         if not dry_run:
-            with open(self.path, "w", encoding="utf-8") as f:
+            with open(self.path, "w", encoding="utf-8", newline="") as f:
                 tomlkit.dump(pyproject, f)
 
         changes = self.build_changes(
@@ -59,7 +59,8 @@ class PyprojectWriter(DependencyWriter):
         )
 
     def _parse_file(self):
-        with open(self.path, encoding="utf-8") as f:
+        # newline="": keep the line endings of the file, the reported diff must match it
+        with open(self.path, encoding="utf-8", newline="") as f:
             return tomlkit.load(f)
 
     def _update_poetry(
